@@ -34,15 +34,48 @@ def run(ctx):
     B = [t for t in T if has_initializer(t[1])]
     CH = 150
     chunks = [A[i:i + CH] for i in range(0, len(A), CH)] + [[b] for b in B]
-    progs = [program(c, i * CH) for i, c in enumerate(chunks)]
-    with concurrent.futures.ThreadPoolExecutor(16) as ex:
-        bads = list(ex.map(lambda p: gcc_bad_lines(p[0]), progs))
-    for (text, where), bad in zip(progs, bads):
-        stray = [l for l in bad if l not in where]
-        if stray:
-            raise RuntimeError("generator error: gcc rejects a line of the prelude (line %d: %r) - the oracle presupposes a valid prelude" % (stray[0], text.split("\n")[stray[0] - 1][:120]))
-    lines = [p[0].encode().hex() for p in progs]
-    ans = stages.run_harness(ctx, "sema", lines, flavour="ndebug")
+    # REACHABILITY: every program ends with a canary, a function whose body the type checker must reject ('i = st;').  A program whose canary
+    # draws no error was not checked to its end (the checker gives up silently at some constructs): its tests are then run one per program,
+    # and the tests after which the canary stays silent are listed in the evidence ("quitters": nothing after them in a unit is checked).
+    CANARY = "void canary_(void) { i = st; }"
+
+    def with_canary(pw):
+        text, where = pw
+        return text.rstrip("\n") + "\n" + CANARY + "\n", where
+
+    def canary_line(text):
+        return text.rstrip("\n").count("\n") + 1
+
+    def canary_fired(text, o):
+        errs = o.split(" | ")[0]
+        return any(e.partition("@")[2] == str(canary_line(text) - 1) for e in errs.split(","))
+
+    def build(chs, base_of):
+        pr = [with_canary(program(c, base_of(i))) for i, c in enumerate(chs)]
+        with concurrent.futures.ThreadPoolExecutor(16) as ex:
+            bd = list(ex.map(lambda p_: gcc_bad_lines(p_[0]), pr))
+        for (text, where), bad in zip(pr, bd):
+            stray = [l for l in bad if l not in where and l != canary_line(text)]
+            if stray:
+                raise RuntimeError("generator error: gcc rejects a line of the prelude (line %d: %r) - the oracle presupposes a valid prelude" % (stray[0], text.split("\n")[stray[0] - 1][:120]))
+            if canary_line(text) not in bad:
+                raise RuntimeError("generator error: gcc accepts the canary")
+            bad.discard(canary_line(text))
+        return pr, bd, stages.run_harness(ctx, "sema", [p_[0].encode().hex() for p_ in pr], flavour="ndebug")
+    progs, bads, ans = build(chunks, lambda i: i * CH)
+    quitters, silent_units = [], 0
+    extra_chunks = []
+    for (text, where), o, chunk in zip(progs, ans, chunks):
+        if not o.startswith(("CRASH", "HANG", "bad")) and not canary_fired(text, o) and len(chunk) > 1:
+            silent_units += 1
+            extra_chunks += [[t] for t in chunk]
+    if extra_chunks:
+        p2, b2, a2 = build(extra_chunks, lambda i: 100000 + i)
+        progs += p2; bads += b2; ans += a2; chunks += extra_chunks
+    for (text, where), o, chunk in zip(progs, ans, chunks):
+        if len(chunk) == 1 and not o.startswith(("CRASH", "HANG", "bad")) and not canary_fired(text, o):
+            quitters.append(chunk[0][1] if not isinstance(chunk[0][1], tuple) else "return " + str(chunk[0][1][2]))
+    lines = [p_[0].encode().hex() for p_ in progs]
     nvalid = nrej = nknown = ncrash = 0
     dump = open(os.environ["VERIF_C11_DUMP"], "w") if os.environ.get("VERIF_C11_DUMP") else None     # maintenance: list every rejection with its key
     diag_hist = collections.Counter()
@@ -70,6 +103,8 @@ def run(ctx):
             ln = int(ln) + 1                              # the front end counts lines from 0
             if ln in where and ln in bad:
                 continue
+            if ln == canary_line(text):
+                continue
             src = text.split("\n")[ln - 1] if 0 < ln <= len(text.split("\n")) else "?"
             stmt = re.sub(r"^(?:void t|\S.*? r)\d+\(void\) \{ ?(.*?) ?\}$", r"\1", src) if ln in where else src
             diag_hist[id_] += 1
@@ -85,7 +120,8 @@ def run(ctx):
         "rule": "test functions, one construct each, over all %d combinations the generator's tables give (every binary and compound-assignment operator x every ordered pair of the 15 arithmetic variables; ~65 unary/conversion/subscript/call/assignment/condition templates x every arithmetic, typedef'd, enum, const, volatile variable; ~130 pointer/array, ~100 struct/union/enum, ~110 call, ~150 mixed statements; 36 return forms); validity decided per line by gcc with the property's flags; quick = 11 operator tables + everything else" % len(T),
         "samples": [progs[0][0].split("\n")[-2], progs[len(progs) // 2][0].split("\n")[-2], progs[-1][0].split("\n")[-2]],
     })
-    ctx.notes.update({"tests": len(T), "valid_by_gcc": nvalid, "rejected_valid": nrej, "of_which_known": nknown, "crashes": ncrash, "diagnostic_histogram": dict(diag_hist), "programs": len(progs)})
+    ctx.notes.update({"tests": len(T), "valid_by_gcc": nvalid, "rejected_valid": nrej, "of_which_known": nknown, "crashes": ncrash, "diagnostic_histogram": dict(diag_hist), "programs": len(progs),
+                      "units_not_checked_to_their_end": silent_units, "tests_after_which_checking_stops": sorted(set(quitters))[:60]})
     ctx.assumptions += ["the type checker stops (Action::Quit) at the first initialised declaration, brace-enclosed initialiser or GNU attribute of a unit: what follows is not checked at all; tests with a local initialiser therefore get a program of their own and the prelude has none",
                         "gcc 12 with the property's flags is the judge of validity, line by line",
                         "known findings are keyed by the exact (diagnostic id, statement): any other rejected statement is a violation"]
